@@ -4,7 +4,7 @@ all unexported functions/methods | locals+params | unexported struct fields by a
 checks statically. Any violated/undecided obligation whose key (with the suffix stripped) is not violated on the
 unchanged tree is a false alarm (name-based anchoring)."""
 import json,os,shutil,subprocess,sys,tempfile
-ENV=dict(os.environ,GOFLAGS='-mod=mod',GOPROXY='off',GOSUMDB='off',GOTOOLCHAIN='local',GOWORK='off')
+ENV=dict(os.environ,GOFLAGS='-mod=mod -trimpath',GOPROXY='off',GOSUMDB='off',GOTOOLCHAIN='local',GOWORK='off')
 SUF='Zq'
 def allv(repo):
     p=subprocess.run([os.environ.get('HMSCHECK','/verif/bin/hmscheck'),'-all','-repo',repo,'-verif','/verif'],capture_output=True,text=True,env=ENV)
@@ -22,7 +22,7 @@ bad=0
 for what in (sys.argv[1:] or ['funcs','locals','fields']):
     tmp=tempfile.mkdtemp(prefix='hms-rn-')
     try:
-        scr=os.path.join(tmp,'repo'); subprocess.run(['cp','-a','/repo',scr],check=True); shutil.rmtree(os.path.join(scr,'.git'),ignore_errors=True)
+        scr=os.path.join(tmp,'repo'); os.makedirs(scr); subprocess.run(['rsync','-a','--exclude=.git','/repo/',scr+'/'],check=True)
         r=subprocess.run(['/verif/bin/renamer','-dir',scr,'-what',what,'-suffix',SUF],capture_output=True,text=True,env=ENV)
         print(what,':',r.stdout.strip(),r.stderr.strip()[-300:])
         if subprocess.run(['go','build','./...'],cwd=scr,capture_output=True,env=ENV).returncode!=0: print('  does not build'); continue
